@@ -453,10 +453,10 @@ func (s c15SlowReaderAt) ReadAt(p []byte, off int64) (int, error) {
 // first Check; everything prefetched), over slow storage in the concurrent run.
 func scenSharedFile(seed int64, par bool) (string, error) {
 	schema := parquet.SchemaOf(C15Row{})
-	rows := c15Rows(rand.New(rand.NewSource(seed)), 360, 0)
+	rows := c15Rows(rand.New(rand.NewSource(seed)), 270, 0)
 	var all []string
 	for fileKind := 0; fileKind < 2; fileKind++ {
-		wopts := c15WriterOptions(int(seed%12), schema, 120) // several row groups
+		wopts := c15WriterOptions(int(seed%12), schema, 100) // several row groups
 		if fileKind == 1 {
 			wopts = append(wopts, parquet.BloomFilterCompression(&parquet.Gzip))
 		}
@@ -937,7 +937,7 @@ func scenRegistries(seed int64, par bool) (string, error) {
 	outs := make([]string, n)
 	err := fanout(par, n, func(i int) error {
 		var sb bytes.Buffer
-		for round := 0; round < 24; round++ {
+		for round := 0; round < 12; round++ {
 			size := int(c15Fresh())
 			f, err := parquet.OpenFile(bytes.NewReader(data), int64(len(data)), parquet.ReadBufferSize(size))
 			if err != nil {
@@ -978,7 +978,7 @@ func scenRegistries(seed int64, par bool) (string, error) {
 			sb.WriteString(br)
 			// the reflection path of the writers (a value of a Go type other than the writer's row type:
 			// writeValueFuncOfGroup, structFieldsCache)
-			wr, err := c15WriteAny(round%2, parquet.Group{"A": parquet.Int(64), "B": parquet.String()}, v.Interface())
+			wr, err := c15WriteAny(round%2, parquet.Group{"A": parquet.Int(64), "B": parquet.String()}, v.Interface(), func() {})
 			if err != nil {
 				return err
 			}
@@ -998,13 +998,14 @@ type c15AnyRow struct {
 }
 
 // c15WriteAny writes one value through the reflection path of the writers and returns the rows of
-// the resulting file. how = 0: a GenericWriter[any] with an explicit schema; how = 1: an `any` field
+// the resulting file; before runs right in front of the Write call. how = 0: a GenericWriter[any] with an explicit schema; how = 1: an `any` field
 // of the row type mapped to a group.
-func c15WriteAny(how int, group parquet.Group, payload any) (string, error) {
+func c15WriteAny(how int, group parquet.Group, payload any, before func()) (string, error) {
 	var out bytes.Buffer
 	switch how {
 	case 0:
 		w := parquet.NewGenericWriter[any](&out, parquet.NewSchema("g", group))
+		before()
 		if _, err := w.Write([]any{payload}); err != nil {
 			return "", err
 		}
@@ -1013,6 +1014,7 @@ func c15WriteAny(how int, group parquet.Group, payload any) (string, error) {
 		}
 	default:
 		w := parquet.NewGenericWriter[c15AnyRow](&out, parquet.NewSchema("Row", parquet.Group{"ID": parquet.Int(64), "Payload": group}))
+		before()
 		if _, err := w.Write([]c15AnyRow{{ID: 7, Payload: payload}}); err != nil {
 			return "", err
 		}
@@ -1038,9 +1040,9 @@ func c15WriteAny(how int, group parquet.Group, payload any) (string, error) {
 // scenSameKey: in the registries scenario every goroutine brings its own fresh keys; here all
 // goroutines of a round hit the process-wide registries and caches with the SAME never-before-seen
 // key — one ReadBufferSize, one Go struct type for SchemaOf, one (large) Go struct type written
-// through the reflection path — at nearly the same moment: goroutine i starts after i/n of the work
-// that building the cache entry takes (a scratch table of i/n of the fields), so that late-comers
-// arrive while the entry of the first one is under construction. What each goroutine wrote is checked
+// through the reflection path — at nearly the same moment: goroutine i reaches the cache after i/8 of
+// the work that building the cache entry takes (enumerating and inserting an eighth of the fields, i
+// times), so that late-comers arrive while the entry of an earlier goroutine is under construction. What each goroutine wrote is checked
 // against the value it wrote (not only against the serial run).
 func scenSameKey(seed int64, par bool) (string, error) {
 	schema := parquet.SchemaOf(C15Flat{})
@@ -1054,19 +1056,20 @@ func scenSameKey(seed int64, par bool) (string, error) {
 		return "", err
 	}
 	data := file.Bytes()
-	const n = 12
-	const rounds = 8
+	const n = 16
+	const rounds = 6
 	int64Type := reflect.TypeOf(int64(0))
 	var all []string
 	for round := 0; round < rounds; round++ {
 		size := int(c15Fresh())
 		id := c15Fresh()
-		numFields := []int{6, 90, 700, 2400}[round%4]
+		numFields := []int{90, 700, 2400, 2400, 12, 700}[round%6]
 		fields := make([]reflect.StructField, numFields)
 		for j := range fields {
 			fields[j] = reflect.StructField{Name: fmt.Sprintf("T%dF%04d", id, j), Type: int64Type}
 		}
 		typ := reflect.StructOf(fields)
+		eighth := reflect.StructOf(fields[:max(1, numFields/8)])
 		v := reflect.New(typ).Elem()
 		for j := range fields {
 			v.Field(j).SetInt(int64(1000 + j))
@@ -1079,7 +1082,7 @@ func scenSameKey(seed int64, par bool) (string, error) {
 		for _, j := range picks {
 			group[fields[j].Name] = parquet.Int(64)
 		}
-		how := round / 4 % 2
+		how := round % 2
 		want := parquet.Row{}
 		if how == 1 {
 			want = append(want, parquet.Int64Value(7).Level(0, 0, 0))
@@ -1094,12 +1097,28 @@ func scenSameKey(seed int64, par bool) (string, error) {
 			{Name: fmt.Sprintf("X%d", id), Type: reflect.TypeOf(int32(0)), Tag: `parquet:"-"`},
 		})).Elem().Interface()
 		outs := make([]string, n)
+		var arrived atomic.Int32
 		err := fanout(par, n, func(i int) error {
-			scratch := make(map[string][]int)
-			for j := 0; j < i*numFields/n; j++ {
-				scratch[fields[j].Name] = fields[j].Index
-			}
-			got, err := c15WriteAny(how, group, payload)
+			// goroutine i reaches the cache after i/8 of the work of building one table of this type
+			// (enumerating the fields, then inserting them)
+			scratch := 0
+			got, err := c15WriteAny(how, group, payload, func() {
+				// all goroutines are on a processor before the first one goes on (thread wake-up times
+				// are far longer than the window aimed at)
+				if par {
+					arrived.Add(1)
+					for arrived.Load() < n {
+						runtime.Gosched()
+					}
+				}
+				for rep := 0; rep < i; rep++ {
+					tbl := make(map[string][]int)
+					for _, f := range reflect.VisibleFields(eighth) {
+						tbl[f.Name] = f.Index
+					}
+					scratch += len(tbl)
+				}
+			})
 			if err != nil {
 				return err
 			}
@@ -1118,7 +1137,7 @@ func scenSameKey(seed int64, par bool) (string, error) {
 				return err
 			}
 			sb.WriteString(digest([]byte(txt)))
-			fmt.Fprintf(&sb, "%v|%d", parquet.SchemaOf(small).Columns(), len(scratch))
+			fmt.Fprintf(&sb, "%v|%d", parquet.SchemaOf(small).Columns(), scratch)
 			outs[i] = sb.String()
 			return nil
 		})
